@@ -8,7 +8,7 @@ import (
 
 func validateTaxCombo(val any) error {
 	c, ok := val.(*tax.Combo)
-	if !ok {
+	if !ok || c == nil {
 		return nil
 	}
 	switch c.Category {
